@@ -44,6 +44,8 @@ class transform_or2xor(SympyTransformer):
             len(expr.args) == 2
             and isinstance(expr.args[0], And)
             and isinstance(expr.args[1], And)
+            and len(expr.args[0].args) == 2
+            and len(expr.args[1].args) == 2
             and (
                 (
                     expr.args[1].args[0] == Not(expr.args[0].args[0])
